@@ -258,6 +258,12 @@ class MyList(list):
         return 'MyList(%s)' % list.__repr__(self)
 
 
+class MyTuple(tuple):
+    """an immutable builtin subclassed WITH an instance __dict__: items cannot be assigned, attributes can"""
+    def __repr__(self):
+        return 'MyTuple(%s)' % tuple.__repr__(self)
+
+
 class SlotDict(dict):
     """dict subclass without __dict__"""
     __slots__ = ()
